@@ -65,7 +65,7 @@ PROPS = {
     ),
     "C06": dict(
         title="Lifecycle gating and monotonicity",
-        lean=["LP.Props.C06gates", "LP.Props.C06stage"],
+        lean=["LP.Props.C06gates", "LP.Props.C06stage", "LP.Props.C06run"],
         profiles=[("timeline", ALL_VARIANTS), ("life", ALL_VARIANTS)],
         R={"st": (ANY, STAGE_MSGS)},
         D={"cfg": ANY},
